@@ -27,6 +27,19 @@ Theorem C18_sub : forall c l, Inv c ->
   exists c', sub c l = COk c' /\ Inv c' /\ items c' = filter (fun x => negb (mem x l)) (items c).
 Proof. exact sub_spec. Qed.
 
+(* histories: whatever sequence of +=, +, -=, - is applied to whatever the constructor built, no operation raises, the result
+   is an ordered set with consistent uid bookkeeping, and its contents are those of the abstract duplicate-free list on which
+   the additions append the new operands once (first occurrences) and the subtractions filter the named elements out *)
+Theorem C18_history : forall l0 ops,
+  exists c', fold_left cstep ops (COk (mk l0)) = COk c' /\ Inv c' /\ items c' = fold_left astep ops (dedup l0).
+Proof. exact history_from_ctor. Qed.
+Theorem C18_history_from_any : forall ops c, Inv c ->
+  exists c', fold_left cstep ops (COk c) = COk c' /\ Inv c' /\ items c' = fold_left astep ops (items c).
+Proof. exact history_refines. Qed.
+Example C18_ex_history : fold_left cstep [OAdd [3;3;1]; OISub [1;1;7]; OIAdd [1]; OSub [2;2]] (COk (mk [1;2;1]))
+  = COk {| items := [3;1]; uids := [1;3] |} /\ fold_left astep [OAdd [3;3;1]; OISub [1;1;7]; OIAdd [1]; OSub [2;2]] (dedup [1;2;1]) = [3;1].
+Proof. vm_compute. split; reflexivity. Qed.
+
 (* containment helpers agree with the trees below the members *)
 Theorem C18_getAllChildNodes : forall t, NoDup (pre t) -> Inv (all_child_nodes t) /\ items (all_child_nodes t) = pre t.
 Proof. exact all_child_nodes_spec. Qed.
